@@ -415,3 +415,117 @@ Definition reach_closed (fs : list func_decl) : bool :=
 
 Definition check_all (cs : list class_decl) (fs : list func_decl) : bool :=
   forallb (check_route cs fs) routes && hygiene cs fs.
+
+(* ------------------------------------------------------------------------------------------------------------------------------
+   Reset VALUES (round 6). The coverage obligation above says that a reset route WRITES every member; it does not say WHAT is
+   written. The translator also extracts
+     inits : the initial value of a member  (constructor member initialiser when all constructors naming the member agree, an
+             assignment to the member in the constructor body, else the in-class initialiser),
+     vals  : for every whole-member assignment `member = value` of an extracted function, the assigned value,
+   both as cexpr terms (names only). The obligation: in the reviewed PURE reset functions below, every such assignment writes the
+   member's INITIAL value (syntactically the same expression; an empty-brace initialiser `{}` equals 0 / nullptr), or the
+   assignment is on the reviewed exception list (and then really differs, so that the list cannot rot). *)
+Record init_decl := mk_init { i_class : string; i_field : string; i_val : cexpr }.
+Record val_decl := mk_val { v_func : string; v_class : string; v_field : string; v_val : cexpr }.
+
+(* functions whose whole purpose is to put members back to their initial state (set-up functions such as on_attach / init /
+   BaseRAPass::run_on_function, which assign working values, are deliberately not listed) *)
+Definition value_funcs : list string :=
+  [ "BaseEmitter::on_detach"; "BaseEmitter::on_reinit"; "BaseEmitter::reset_inline_comment"; "BaseEmitter::reset_inst_options";
+    "BaseAssembler::on_detach"; "BaseBuilder_clear_all"; "BaseCompiler_clear";
+    "CodeHolder_reset_containers"; "CodeHolder_reset_env_and_attached_logger_and_eh"; "CodeHolder_detach_emitters";
+    "RAPass_cleanup_after_function"; "RAPass_cleanup_logging"; "RAPass_reset_virt_reg_data"; "BaseNode::reset_pass_data" ].
+
+Record value_exc := mk_vexc { x_func : string; x_class : string; x_field : string; x_why : string }.
+Definition value_exceptions : list value_exc :=
+  [ mk_vexc "CodeHolder_detach_emitters" "CodeHolder" "_attached_first"
+      "the loop pops the head of the attached-emitter list (`_attached_first = next`) until the list is empty: the last value written is the null `next` of the last emitter, i.e. the initial value";
+    mk_vexc "RAPass_cleanup_logging" "BaseRAPass" "_diagnostic_options"
+      "written as DiagnosticOptions::kNone, declared with an empty-brace initialiser: the same value (kNone = 0), spelled differently" ].
+
+Fixpoint lookup_init (is : list init_decl) (c f : string) : option cexpr :=
+  match is with
+  | [] => None
+  | i :: r => if String.eqb (i_class i) c && String.eqb (i_field i) f then Some (i_val i) else lookup_init r c f
+  end.
+
+Definition zero_value (e : cexpr) : bool := cexpr_eqb e (CLit "0") || cexpr_eqb e (CLit "nullptr").
+Definition same_value (i v : cexpr) : bool := cexpr_eqb i v || (cexpr_eqb i (CLit "{}") && zero_value v).
+
+Definition exc_matches (v : val_decl) (x : value_exc) : bool :=
+  String.eqb (x_func x) (v_func v) && String.eqb (x_class x) (v_class v) && String.eqb (x_field x) (v_field v).
+Definition excepted (v : val_decl) : bool := existsb (exc_matches v) value_exceptions.
+
+Definition initial_value_written (is : list init_decl) (v : val_decl) : bool :=
+  match lookup_init is (v_class v) (v_field v) with Some i => same_value i (v_val v) | None => false end.
+
+Definition val_ok (is : list init_decl) (v : val_decl) : bool :=
+  negb (mem (v_func v) value_funcs) || excepted v || initial_value_written is v.
+
+(* the reviewed lists cannot rot: every listed function still has an extracted assignment, and every exception names an
+   assignment that exists and really is NOT the initial value *)
+Definition values_hygiene (is : list init_decl) (vs : list val_decl) : bool :=
+  forallb (fun f => existsb (fun v => String.eqb (v_func v) f) vs) value_funcs
+  && forallb (fun x => mem (x_func x) value_funcs
+                       && existsb (fun v => exc_matches v x && negb (initial_value_written is v)) vs) value_exceptions.
+
+Definition check_values (is : list init_decl) (vs : list val_decl) : bool :=
+  forallb (val_ok is) vs && values_hygiene is vs.
+
+(* the offending assignments (function, class, member), for the report of the check *)
+Definition bad_values (is : list init_decl) (vs : list val_decl) : list (string * string * string) :=
+  map (fun v => (v_func v, v_class v, v_field v)) (filter (fun v => negb (val_ok is v)) vs).
+
+(* ---- set-up ... tear-down functions. BaseRAPass::run_on_function assigns working values to members of the pass at its start and
+   puts them back at its end. The coverage obligation is satisfied by the set-up assignment alone; this obligation asks for the
+   tear-down: for every member the function assigns, the LAST assignment in source order (gen/ResetFields.val_seq) writes the
+   member's initial value, and the function has an UNCONDITIONAL assign-write of the member on `this` (guard []: not nested in a
+   branch or loop, not after an early exit), so that the tear-down runs on every path. *)
+Definition teardown_funcs : list string := [ "BaseRAPass::run_on_function" ].
+
+Fixpoint last_val (vs : list val_decl) (fn c f : string) (acc : option cexpr) : option cexpr :=
+  match vs with
+  | [] => acc
+  | v :: r => last_val r fn c f (if String.eqb (v_func v) fn && String.eqb (v_class v) c && String.eqb (v_field v) f
+                                 then Some (v_val v) else acc)
+  end.
+
+Definition unconditional_assign (fs : list func_decl) (fn c f : string) : bool :=
+  existsb (fun w => String.eqb (w_class w) c && String.eqb (w_field w) f && String.eqb (w_sub w) "" && String.eqb (w_how w) "assign"
+                    && String.eqb (w_obj w) "this" && match w_guard w with [] => true | _ => false end) (writes_of fs fn).
+
+Definition teardown_val_ok (is : list init_decl) (seq : list val_decl) (fs : list func_decl) (v : val_decl) : bool :=
+  negb (mem (v_func v) teardown_funcs) ||
+  (match lookup_init is (v_class v) (v_field v), last_val seq (v_func v) (v_class v) (v_field v) None with
+   | Some i, Some l => same_value i l
+   | _, _ => false
+   end && unconditional_assign fs (v_func v) (v_class v) (v_field v)).
+
+Definition check_teardown (is : list init_decl) (seq : list val_decl) (fs : list func_decl) : bool :=
+  forallb (teardown_val_ok is seq fs) seq
+  && forallb (fun f => existsb (fun v => String.eqb (v_func v) f) seq) teardown_funcs.
+
+Definition bad_teardown (is : list init_decl) (seq : list val_decl) (fs : list func_decl) : list (string * string * string) :=
+  map (fun v => (v_func v, v_class v, v_field v)) (filter (fun v => negb (teardown_val_ok is seq fs v)) seq).
+
+(* ---- the two extractions agree: every whole-member `assign` write the coverage obligation sees in a pure reset or set-up/tear-down
+   function has a value row (so "covered by the idiom assign" in those functions always comes with a checked value) *)
+Definition has_val (vs : list val_decl) (fn : string) (w : write) : bool :=
+  existsb (fun v => String.eqb (v_func v) fn && String.eqb (v_class v) (w_class w) && String.eqb (v_field v) (w_field w)) vs.
+Definition assign_writes_have_values (fs : list func_decl) (vs : list val_decl) : bool :=
+  forallb (fun fn => forallb (fun w => negb (String.eqb (w_how w) "assign" && String.eqb (w_sub w) "") || has_val vs fn w) (writes_of fs fn))
+          (value_funcs ++ teardown_funcs).
+
+(* ---- functions that reset ONE OF THEIR ARGUMENTS while doing other work: CodeHolder::detach unlinks `emitter` from the holder's
+   list (assignments on the neighbours and on the holder carry working values) and clears the emitter's own link members. Every
+   assignment made ON THE LISTED OBJECT writes the member's initial value (gen/ResetFields.vals_on pairs each assignment that is
+   not on `this` with its object). *)
+Definition value_obj_funcs : list (string * string) := [ ("CodeHolder::detach", "param:emitter") ].
+Definition obj_listed (o : string) (v : val_decl) : bool :=
+  existsb (fun p => String.eqb (fst p) (v_func v) && String.eqb (snd p) o) value_obj_funcs.
+Definition check_object_values (is : list init_decl) (vo : list (string * val_decl)) : bool :=
+  forallb (fun ov => negb (obj_listed (fst ov) (snd ov)) || initial_value_written is (snd ov)) vo
+  && forallb (fun p => existsb (fun ov => String.eqb (fst p) (v_func (snd ov)) && String.eqb (snd p) (fst ov)) vo) value_obj_funcs.
+Definition bad_object_values (is : list init_decl) (vo : list (string * val_decl)) : list (string * string * string) :=
+  map (fun ov => (v_func (snd ov), v_class (snd ov), v_field (snd ov)))
+      (filter (fun ov => obj_listed (fst ov) (snd ov) && negb (initial_value_written is (snd ov))) vo).
